@@ -26,7 +26,7 @@ class Obl:
     def __init__(self, name, harness, desc, real=(), defs=(), unwind=None, unwindset=(), flags=(),
                  tiers=("quick", "thorough"), timeout=None, mem_gb=None, entry="main", encodes=(),
                  bounds="", symbolic="", hooks=False, kind="cbmc", pyfunc=None, no_std=(),
-                 backend=None, object_bits=None, twin_defs=None, cut_loops=(), allow_nobody=()):
+                 backend=None, object_bits=None, twin_defs=None, cut_loops=(), allow_nobody=(), remove_bodies=()):
         self.name = name
         self.harness = harness          # path relative to /verif/harness
         self.desc = desc
@@ -50,6 +50,7 @@ class Obl:
         self.object_bits = object_bits
         self.cut_loops = list(cut_loops)  # spin loops cut by an unwinding ASSUMPTION (goto-instrument), listed in the evidence
         self.allow_nobody = list(allow_nobody)
+        self.remove_bodies = list(remove_bodies)  # functions whose bodies are dropped (must then be unreachable: cbmc's no-body property)
         self.twin_defs = twin_defs      # extra -D for a reachability twin (second build + run); its WITNESS must be reached
 
 
@@ -131,6 +132,14 @@ def build(prop, o, workdir):
     log += " ".join(cmd) + "\n" + out
     if rc != 0:
         return None, log
+    if o.remove_bodies:
+        gb1 = os.path.join(workdir, o.name + ".rm.gb")
+        cmd = ["goto-instrument"] + [x for f in o.remove_bodies for x in ("--remove-function-body", f)] + [gb, gb1]
+        rc, out, _ = sh(cmd, timeout=300)
+        log += " ".join(cmd) + "\n" + out[-2000:]
+        if rc != 0:
+            return None, log
+        gb = gb1
     # static inline functions that occur in several TUs are renamed fn$link1, fn$link2, ... by the linker: apply loop
     # bounds to every copy
     rc, out, _ = sh(["goto-instrument", "--show-loops", gb], timeout=120)
